@@ -437,6 +437,28 @@ def chunks(seq, n):
 # --------------------------------------------------------------------------
 # running the real bfg9000 (editable install of /repo) and tools
 
+def apalache(module, args, timeout=900):
+    """apalache-mc check on a module of /verif/spec (bounded / inductive
+    symbolic checks; TLC stays the main engine).  Returns (status, seconds,
+    tail) with status 'ok' | 'error' | 'unavailable'."""
+    exe = shutil.which('apalache-mc')
+    if not exe:
+        return 'unavailable', 0.0, ''
+    out = scratch('verif-apa-')
+    t0 = time.time()
+    try:
+        p = subprocess.run([exe, 'check', '--out-dir=' + out] + list(args) +
+                           [module + '.tla'], cwd=SPEC, text=True,
+                           stdout=subprocess.PIPE, stderr=subprocess.STDOUT,
+                           timeout=timeout)
+        ok = p.returncode == 0 and 'EXITCODE: OK' in p.stdout
+        return ('ok' if ok else 'error'), time.time() - t0, p.stdout[-1500:]
+    except subprocess.TimeoutExpired:
+        return 'error', time.time() - t0, 'timeout'
+    finally:
+        shutil.rmtree(out, ignore_errors=True)
+
+
 def tool_env(extra=None):
     e = {k: v for k, v in os.environ.items()
          if k in ('HOME', 'LANG', 'LC_ALL', 'TMPDIR', 'USER')}
